@@ -177,6 +177,41 @@ def run_case(case):
                         break
             except Exception as e:
                 viol = {"oracle": "crossframe_partition", "symptom": f"raises:{type(e).__name__}", "detail": str(e)[:200], "cell": [n_in, n_out, mb, method]}
+        # ---- the index as key, referred to by NAME or by on_index, int labels in one frame and float labels in the other ----------
+        if not viol:
+            try:
+                ia = dx.from_pandas(pdf.set_index(pdf.ki.rename("kidx")), npartitions=n_in, sort=False)
+                fa = dx.from_pandas(pdf.iloc[::-1].set_index(pdf.iloc[::-1].ki.astype("float64").rename("kidx")), npartitions=max(1, (n_in % 3) + 1), sort=False)
+                maps = {}
+                for tag, fr, kw2 in (("int-by-name", ia, {"on": "kidx"}), ("float-by-name", fa, {"on": "kidx"}), ("int-on-index", ia, {"on_index": True}), ("float-on-index", fa, {"on_index": True})):
+                    pp, _ = parts_of(fr.shuffle(npartitions=n_out, max_branch=mb, **kw2))
+                    m = {}
+                    for pi, part in enumerate(pp):
+                        for kv in set(part.index.tolist()):
+                            if float(kv) in m and m[float(kv)] != pi:
+                                viol = {"oracle": "colocation", "symptom": "key-in-two-partitions", "frames": [tag], "keyval": float(kv), "cell": [n_in, n_out, mb, method]}
+                            m[float(kv)] = pi
+                    if sorted(r for part in pp for r in part["rid"].tolist()) != sorted(pdf["rid"].tolist()) and not viol:
+                        viol = {"oracle": "exactly_once", "symptom": "rows", "frames": [tag], "cell": [n_in, n_out, mb, method]}
+                    maps[tag] = m
+                    bump("index_key_shuffles")
+                base = maps["int-on-index"]
+                for tag, m in maps.items():
+                    bump("crossframe_checks")
+                    for kv, p in m.items():
+                        if kv in base and base[kv] != p and not viol:
+                            viol = {"oracle": "crossframe_partition", "symptom": "key-in-different-partition", "frames": ["int-on-index", tag], "keyval": kv, "got": p, "exp": base[kv],
+                                    "cell": [n_in, n_out, mb, method]}
+                if not viol:
+                    # the consumer: a join of the int-indexed frame (index referred to by name) with a frame holding the key as a float column
+                    right = dx.from_pandas(pd.DataFrame({"kidx": pdf.ki.astype("float64").unique(), "w": 1.0}), npartitions=2, sort=False)
+                    got = ia[["rid"]].merge(right, on="kidx", how="inner", shuffle_method=method if method != "disk" else None, npartitions=n_out).compute(scheduler="sync")
+                    bump("index_name_joins")
+                    if len(got) != len(pdf):
+                        viol = {"oracle": "consumer_join", "symptom": "fewer-rows" if len(got) < len(pdf) else "more-rows", "got": len(got), "exp": len(pdf), "frames": ["index-by-name join"],
+                                "cell": [n_in, n_out, mb, method]}
+            except Exception as e:
+                viol = {"oracle": "crossframe_partition", "symptom": f"raises:{type(e).__name__}", "detail": str(e)[:200], "cell": [n_in, n_out, mb, method], "frames": ["index-key"]}
         # ---- consumers relying on co-location -------------------------------------------------------
         if not viol and mb == CONFIG["quick"]["branches"][0]:
             v = consumers(dx, pdf, ddf, n_in, n_out, rng, bump)
